@@ -375,7 +375,7 @@ PROPS = {
                    "(digit strings <= 4, constant bases, widths 8/16(/65)); to_base_be's Vec reversal is not separately proved; declared rewrites in from_base_be / from_base_le: the iterator parameter `I: IntoIterator<Item = u64>` is instantiated with a slice "
                    "iterator (the functions use `digits` only through the Iterator protocol), `for digit in iter.by_ref()` / `for digit in iter` are written as their definition `while let Some(d) = iter.next()`, "
                    "`for limb in &mut result.limbs` -> `.iter_mut()`, `#[verifier::truncate]` on `carry as u64`; vstd's specification of slice::Iter::next is trusted",
-        technique="deductive contract (Verus, all widths/bases) for the digit step + Kani bounded contract harnesses for parsing",
+        technique="deductive contracts (Verus, all widths/bases/lengths) for the digit step and from_base_le/be + Kani bounded contract harnesses for string parsing; formatting traits: bounded concrete Kani grid only",
         units=["core", "basics", "kernels", "spigot", "fmt_consts", "frombase",
                "div_small"],   # the digit step divides by the base through div_nx1
         kani=dict(features=None, quick=hs("c09") + fmt_hs(True), thorough=hs("c09") + fmt_hs(False), bounds="see module headers of kani/src/c09.rs and c09f.rs (formatting: BOUNDED, one concrete value per harness)"),
@@ -433,7 +433,7 @@ PROPS = {
         level_note="pad_limbs: proof (ASSUMED there: std's `last() == Some(&0)` and `last().copied().unwrap_or(0)` through N14 wrappers). parse_digits / parse_suffix BOUNDED (not a proof): strings <= 5 characters over a 16-character alphabet (parse_digits), <= 7 (parse_suffix), limb vectors <= 4; alloc::fmt::format and Vec::push are replaced by Kani stubs "
                    "(the real ones exhaust CBMC), the native replay runs the real ones. The Transformer's token-tree traversal and code generation (proc_macro::TokenStream exists only inside rustc) are outside both verifiers; BOUNDED stand-in (vf/macroexp.py, /verif/macrocheck): the REAL macro, built from /repo, is executed by rustc on 31 literal / nesting shapes (all bases, underscores, widths 0..256, upper-case hex with B digits, the Bits suffix, () [] {} nesting, call arguments, macro_rules $e:expr / $l:literal / $t:tt forwarding, pass-through of plain integers, identifiers, strings, floats) and every expansion is compared at run time with from_str_radix of the same digits; four invalid literals (digit above / equal to the base, value >= 2^bits for U and B) must each fail to compile at their own line. NOT decided: "
                    "literals of several hundred digits, widths up to 4096, error message text",
-        technique="deductive contract (Verus, all widths and lengths) on pad_limbs; Kani bounded contract harnesses on verbatim-extracted proc-macro functions (extraction drops everything that touches proc_macro::TokenStream)",
+        technique="deductive contract (Verus, all widths and lengths) on pad_limbs; Kani bounded contract harnesses on verbatim-extracted proc-macro functions (extraction drops everything that touches proc_macro::TokenStream); the token traversal is only executed (real macro on a grid of literal shapes, bounded)",
         units=["padlimbs"],
         macro_grid=True,
         kani=dict(features=None, quick=hs("c19"), thorough=hs("c19"), bounds="strings <= 5 / <= 7 chars, vectors <= 4 limbs, bits in {0,1,2,8,63,64,65,100,127,128,129,191,192}"),
